@@ -604,7 +604,7 @@ def generate(ctx, bases, enums):
                 for mi in range(len(muts)):
                     sweep.append((bi, ri, mi))
     rng.shuffle(sweep)
-    n_sweep = ctx.pick(1100, len(sweep))
+    n_sweep = ctx.pick(2200, min(len(sweep), 12000))
     seen = set()
     for bi, ri, mi in sweep:
         if len(seen) >= n_sweep:
@@ -628,7 +628,7 @@ def generate(ctx, bases, enums):
                     pr[1] = muts[mi]
             add("cell:" + field, render(proj) if rng.random() < 0.9 else render_raw(proj))
     # -- structural mutations of rows / columns
-    for k in range(ctx.pick(260, 2500)):
+    for k in range(ctx.pick(600, 6000)):
         name, text, rows = rng.choice(bases)
         ncol = max(len(r) for r in rows) - 1
         cols = rng.sample(range(1, ncol + 1), rng.randrange(1, min(3, ncol) + 1))
@@ -693,13 +693,13 @@ def generate(ctx, bases, enums):
     for k in [0, 1, 24, 25, 26, 27, 51, 52, 675, 676, 700, 701, 702, 703, 1500] + [rng.randrange(0, 3000) for _ in range(ctx.pick(6, 60))]:
         add("wide", "level," + "," * k + rng.choice(["0", "x", "0\nprofile,%s3" % ("," * k)]) + "\n")
     # -- generated columns
-    for k in range(ctx.pick(320, 4000)):
+    for k in range(ctx.pick(600, 8000)):
         ncols = rng.choice([1, 1, 1, 2, 2, 3, 5])
         corrupt = rng.choice([0, 0, 0, 1, 1, 2])
         cols = [random_column(rng, enums, corrupt if j == 0 or rng.random() < 0.3 else 0) for j in range(ncols)]
         add("generated:%d" % min(corrupt, 1), render(columns_to_rows(rng, cols)))
     # -- random CSV texts
-    for k in range(ctx.pick(320, 4000)):
+    for k in range(ctx.pick(600, 8000)):
         add("random", random_csv_text(rng), rng.choice(["raw", "universal"]))
     return cases
 
@@ -783,6 +783,7 @@ def run(ctx):
 
     coq_cases, meta, dl_cases, dl_meta = [], [], [], []
     seen_viol = {}
+    skipped = [0]
     for tag, text, mode in cases:
         nv = len(ctx.violations)
         rows, obs, bucket = evaluate(ctx, tables, cf, enums, tag, text, mode)
@@ -801,7 +802,7 @@ def run(ctx):
         if rows is not None and too_big_for_coq(rows):
             # integers of thousands of digits (the package lifts CPython's int-string limit): implementation
             # and oracle only; the decimal literal would dominate the Coq run
-            ctx.count(0, bucket="(not sent to Coq: integer literal over %d digits)" % MAX_DIGITS)
+            skipped[0] += 1
             continue
         if obs is not None:
             coq_cases.append((rows, obs))
@@ -815,6 +816,7 @@ def run(ctx):
             except Exception:
                 pass  # reported by evaluate() already
 
+    ctx.note("%d cases with integer literals over %d digits were run on the implementation and the oracle only (not sent to Coq)" % (skipped[0], MAX_DIGITS))
     ctx.extra["t_implementation_and_oracle_s"] = round(time.time() - t0, 1)
     t0 = time.time()
 
